@@ -806,6 +806,7 @@ class BayesianOptimizationSearcher(ModelBasedSearcher):
             cost_attr=self._cost_attr,
             resource_attr=self._resource_attr,
             filter_observed_data=self._filter_observed_data,
+            state_converter=copy.copy(self.state_transformer.state_converter),
             allow_duplicates=self._allow_duplicates,
             restrict_configurations=self._restrict_configurations,
         )
